@@ -12,6 +12,16 @@ pub mod vars_secondary;
 pub mod vars_timestamp;
 use crate::version::zerv::bump::precedence::Precedence;
 
+/// Add a bump increment; a sum beyond u64 is an error rather than a wrapped (or, in debug
+/// builds, panicking) addition
+pub(crate) fn checked_bump(current: u64, increment: u32) -> Result<u64, ZervError> {
+    current.checked_add(increment as u64).ok_or_else(|| {
+        ZervError::InvalidArgument(format!(
+            "Cannot bump {current} by {increment}: the result exceeds the maximum version number"
+        ))
+    })
+}
+
 impl Zerv {
     pub fn apply_component_processing(&mut self, args: &ResolvedArgs) -> Result<(), ZervError> {
         let precedence_order: Vec<Precedence> =
